@@ -7,7 +7,11 @@ import (
 	"io"
 	"os/exec"
 	"strings"
+	"time"
 )
+
+// JobTimeout bounds one job on the runner; a job that does not finish is a broken correspondence.
+var JobTimeout = 300 * time.Second
 
 // Job / Obs / Res mirror the runner's JSON protocol (rt/runner/main.go.txt).
 type Job struct {
@@ -97,6 +101,9 @@ func (b *Built) RunJob(job *Job, f func(*Res)) (n int, trunc bool, err error) {
 	if err := cmd.Start(); err != nil {
 		return 0, false, err
 	}
+	timedOut := false
+	timer := time.AfterFunc(JobTimeout, func() { timedOut = true; cmd.Process.Kill() })
+	defer timer.Stop()
 	go func() {
 		json.NewEncoder(in).Encode(job)
 		in.Close()
@@ -120,6 +127,9 @@ func (b *Built) RunJob(job *Job, f func(*Res)) (n int, trunc bool, err error) {
 		f(&r)
 	}
 	werr := cmd.Wait()
+	if timedOut {
+		return n, trunc, fmt.Errorf("the exploration of job %d (%s P=%d size=%d mode=%s) did not finish within %v on the instrumented code", job.ID, job.Level, len(job.Msgs), job.Size, job.Mode, JobTimeout)
+	}
 	if err == nil && werr != nil {
 		err = fmt.Errorf("runner: %v: %s", werr, stderr.String())
 	}
